@@ -291,7 +291,7 @@ class _INSIntegralState(_BaseNSIntegralState):
     @property
     def evidence(self) -> float:
         """The current evidence"""
-        return np.exp(self.log_evidence)
+        return np.exp(self.log_evidence, dtype=np.longdouble)
 
     @property
     def evidence_error(self) -> float:
